@@ -34,6 +34,9 @@ claimed = {
  "C09": dict(
    text="For the bgv evaluator's binary operations (Add, Sub, Mul, MulRelin, MulRelinThenAdd; equal and different scales): every operand is compared coefficient-wise (atoms) before and after the call, the operation is repeated with the output aliased to the first and to the second operand and into an output object that previously held a larger-degree ciphertext, and the results must be identical polynomials / decrypt identically; big.Int scalar operands must be unchanged.",
    ref="DESIGN.md §6-C09", technique="SSA symbolic execution in the algebraic slot model (exact polynomial identity of outputs across aliasing patterns) + SMT (LIA)"),
+ "C10": dict(
+   text="Differential + heap-model checking of the copy constructors from go/ssa (rlwe Evaluator/Encryptor/Decryptor ShallowCopy/WithKey/WithPRNG, bgv/ckks evaluators, deep copies of ciphertexts, plaintexts, keys, metadata): the same operation on the same symbolic inputs (every coefficient a free field element) through the original and through the copy must give identical results; an operation on the copy must leave every object reachable from the original unchanged (engine heap snapshot), a mutation of a deep copy must not reach the original, and no object written during an operation on a copy documented as concurrently usable may be reachable from the original (write-set separation: sufficient for race freedom of one-copy-per-goroutine, for all data values). Goroutine schedules and the race detector's view are outside: a sequential symbolic executor does not explore interleavings.",
+   ref="DESIGN.md §6-C10", technique="SSA symbolic execution in the algebraic slot model with heap snapshots / write sets + SMT on the result identities"),
  "C11": dict(
    text="Word level (BV): Galois-element arithmetic of rlwe.Parameters (GaloisElement group law, periodicity in the generator order, ModInvGaloisElement, SolveDiscreteLogGaloisElement) for all 64-bit rotation indices, through the real ModExp/ModExpPow2 loops (if-converted). Algebraic level (in the C04 automorphism harness, shared code): Automorphism / AutomorphismHoisted / AutomorphismHoistedLazy decrypt to sigma_g of the plaintext with the slot permutation computed from the definition. Inner sums, replication and the scheme-level rotation wrappers are not yet covered.",
    ref="DESIGN.md §6-C11", technique="SSA symbolic execution + SMT (BV) on the Galois arithmetic; algebraic slot model for the induced ciphertext automorphisms"),
